@@ -57,6 +57,10 @@ def _(v):
         new = L.st.trace[len(L.entry.trace):] if L.entry is not None else []
         out.append(("nothing_written", z3.BoolVal(not new)))
         h1, h2, f0 = L.at_head("pos1"), L.at_head("pos2"), L.at_head("are_different")
+        if h1 is not None and "fields_differ" not in _locals(L) and "notfound" in _locals(L):
+            # second pass: an iteration whose search through buf1 ended with notfound == 1 must raise the flag
+            out.append(("field_only_in_second_buffer_raises_flag", z3.Implies(L.notfound == 1, L.are_different == 1)))
+            out.append(("flag_monotone", z3.Implies(f0 == 1, L.are_different == 1)))
         if h1 is not None and "fields_differ" in _locals(L):
             out.append(("flag_monotone", z3.Implies(f0 == 1, L.are_different == 1)))
             # first pass only (it declares fields_differ): a field present in both with equal size and equal bytes
@@ -93,7 +97,24 @@ def _(v):
         return [("i_nonneg", L.i >= 0)]
 
     from contracts.C06_diff import varconfig_loop, particle_loop
-    outer = v.loop_where(fn, lambda i: i["depth"] == 0 and i["kind"] == "WhileStmt", invariant=main_inv)
+    outer = [o for (o, i) in v.loops_of(fn) if i["depth"] == 0 and i["kind"] == "WhileStmt"]
+    v.ground("two_passes_present", len(outer) == 2, "first pass (fields of buf1), second pass (fields only in buf2): %s" % outer)
+    if len(outer) != 2:
+        from engine.cexec import PathEnd
+        raise PathEnd("reb_binary_diff: expected two top-level passes")
+    from engine.csym import LoopSpec
+    passes = {}
+
+    def make_pass(k, o):
+        spec = LoopSpec(main_inv)
+
+        def handler(e, st, n, cond, inc, body):
+            st.trace = st.trace + [("pass", k)]            # the pass has been entered on this path
+            passes[k] = True
+            return e.loop_invariant(st, n, cond, inc, body, False, spec, fn, o)
+        v.loop(fn, o, invariant=handler, mode="custom")
+    for k, o in enumerate(outer):
+        make_pass(k + 1, o)
     inner = [o for (o, i) in v.loops_of(fn) if i["depth"] == 1 and i["kind"] == "WhileStmt"]
     v.loop(fn, inner[0], invariant=search2_inv)
     v.loop(fn, inner[1], invariant=search1_inv)
@@ -101,6 +122,10 @@ def _(v):
     varconfig_loop(v, fn)
     ret = v.call(fn, E["b1"], E["size1"], E["b2"], E["size2"], Ptr(None, (), True), Ptr(None, (), True), z3.IntVal(2))
     v.prove("returns_boolean", z3.Or(ret == 0, ret == 1))
+    # the comparison is symmetric only if BOTH passes run in compare mode: the second one finds the fields that exist only in the
+    # second simulation (a == b and b == a must agree)
+    done = [t[1] for t in v.st.trace if t[0] == "pass"]
+    v.ground("compare_mode_runs_both_passes", done == [1, 2], "passes entered on this returning path: %s" % done)
 
 
 def _zeroed_and_never_stored(v, name, member_path):
